@@ -2213,6 +2213,10 @@ struct Value {
                 number_.Natural = SizeT64{0};
             }
         }
+
+        // All members share one storage and constructors set only the member they use: clear the whole of it, so that
+        // whichever member becomes active next starts empty (otherwise Value{"a", 1} += 1 sees a garbage capacity).
+        Memory::Initialize(&array_);
     }
 
     void copyValue(const Value &val) {
